@@ -121,7 +121,14 @@ class C09(core.Check):
                 else:
                     rows.append((far, far, far + (0.125 if sg < 0 else 0), far - (0.125 if sg > 0 else 0), 3.0))
             script = {side: {'every': 100000, 'phase': 0, 'rows': [(1.0, 0.0)]}}
-            out.append({'kind': 'futures', 'balance': 100_000, 'fee': rng.choice([0, 1 / 1024]), 'leverage': lev, 'isolated': True,
+            fee = rng.choice([0, 1 / 1024])
+            balance = 100_000
+            if lev >= 2 and rng.random() < 0.4:
+                # an all-in position: the wallet barely covers the margin, so margin + entry and exit fees take it BELOW
+                # zero at the liquidation (that is what the loss is; nothing may cut it off)
+                fee = 1 / 1024
+                balance = round(entry / lev * 1.012, 6)
+            out.append({'kind': 'futures', 'balance': balance, 'fee': fee, 'leverage': lev, 'isolated': True,
                         'fast': fast, 'syms': ['BTC-USDT'], 'routes': [('BTC-USDT', tf)], 'droutes': [], 'n': n_rows,
                         'scripts': {'BTC-USDT': script}, 'rows': {'BTC-USDT': rows}, 'candle_seed': rng.randrange(1 << 30),
                         'vol': 0, 'gap_prob': 1})
